@@ -76,6 +76,10 @@ func (c *Conversation) generateEncryptedSignature(key *akeKeys) ([]byte, error) 
 		// a conversation without a long-term key for this version cannot sign
 		return nil, newOtrError("no private key to sign the key exchange with")
 	}
+	if k, ok := c.ourCurrentKey.(*DSAPrivateKey); ok && !k.isComplete() {
+		// ImportKeys accepts key files that leave numbers out: such a key cannot sign either
+		return nil, newOtrError("the private key to sign the key exchange with is incomplete")
+	}
 
 	verifyData := appendAll(c.ake.ourPublicValue, c.ake.theirPublicValue, c.ourCurrentKey.PublicKey(), c.ake.keys.ourKeyID)
 
